@@ -3,7 +3,7 @@ import json
 import vf
 
 OPS = ["load good kid=a", "load good kid=a (again)", "load good kid=b", "load bad item", "load mixed set [good c, bad, good a]",
-       "load non-JSON", "free(0)", "free(count/2)", "free(last)", "free(count)", "free_bad", "free_all", "error_clear", "free(count+5)"]
+       "load non-JSON", "free(0)", "free(count/2)", "free(last)", "free(count)", "free_bad", "free_all", "error_clear", "free(count+5)", "load 300-key set"]
 KID = {0: "a", 1: "b", 2: "c"}
 
 
@@ -40,10 +40,12 @@ def judge(path):
             cnt("op." + OPS[op])
             n = len(items)
             exp_ret = 0
-            if op <= 4:
+            if op <= 4 or op == 14:
                 for part in loaded.split(","):
                     f = part.split(":")
-                    if f[0] == "g":
+                    if f[0] == "bulk":
+                        items.extend(dict(uid=u, kid=None, bad=0) for u in range(int(f[1]), int(f[1]) + int(f[2])))
+                    elif f[0] == "g":
                         items.append(dict(uid=int(f[2]), kid=f[1], bad=0))
                     else:
                         items.append(dict(uid=int(f[1]), kid="bad-" + f[1], bad=1))
@@ -62,7 +64,7 @@ def judge(path):
                 items = []
             elif op == 12:
                 set_err = False
-            out["distinct"].add((op, min(n, 6), min(sum(i["bad"] for i in items), 3), set_err, exp_ret if exp_ret < 4 else 4))
+            out["distinct"].add((op, min(n, 6) if n < 200 else 200 if n < 256 else 256 if n < 1024 else 1024, min(sum(i["bad"] for i in items), 3), set_err, exp_ret if exp_ret < 4 else 4))
             if op > 5 and op != 12 and ret != exp_ret:
                 viol("return:%s" % OPS[op], "returned %d, list model says %d" % (ret, exp_ret), ev)
             obs = [(u, (KID.get(k) if k in KID else ("bad-%d" % u if k == 3 else None)), e) for u, k, e in its]
@@ -95,7 +97,7 @@ def run(tier, seed, replay):
     rep = vf.Report("C16", tier, seed)
     L = 5 if tier == "thorough" else 4
     rep.rule = ("all operation sequences up to length %d over 14 operations (loads of good/duplicate-kid/bad/mixed/non-JSON documents, "
-                "free at first/middle/last/out-of-range index, free_bad, free_all, error_clear) and random sequences up to length 200; "
+                "free at first/middle/last/out-of-range index, free_bad, free_all, error_clear), random sequences up to length 200 and long keyrings (300-key documents, up to ~3000 items); "
                 "after every step count, every item by index (unique id, kid, error), find_bykid for 6 kids, error_any and the set error "
                 "are compared with a Python list model; ASan/LSan watch for freed-memory use and leaks. distinct = distinct (op, list "
                 "length bucket, bad items bucket, set error, return bucket) tuples" % L)
@@ -106,7 +108,9 @@ def run(tier, seed, replay):
     rep.crash_violations(crashes)
     outs2, crashes2 = vf.run_shards(b, ["--mode", "rand", "--n", 40000 if tier == "thorough" else 1500, "--seed", seed], vf.NCPU, rd, tag="r", timeout=3000)
     rep.crash_violations(crashes2, prefix="rand:")
-    for r in vf.pmap(judge, [(p,) for p in outs + outs2]):
+    outs3, crashes3 = vf.run_shards(b, ["--mode", "big", "--n", 160 if tier == "thorough" else 16, "--seed", seed], vf.NCPU, rd, tag="b", timeout=3000)
+    rep.crash_violations(crashes3, prefix="big:")
+    for r in vf.pmap(judge, [(p,) for p in outs + outs2 + outs3]):
         rep.evaluations += r["n"]
         rep.distinct |= r["distinct"]
         for k, what, wit in r["viol"]:
